@@ -360,7 +360,8 @@ PROPS = {
                                  'DX.clone_struct_default', 'DX.copy_struct_default', 'DX.clone_enum_default', 'DX.copy_enum_default',
                                  'DX.ops_default', 'DX.default_struct_default', 'DX.default_struct_value_default',
                                  'DX.default_enum_default', 'DX.debug_struct_default', 'DX.debug_enum_default',
-                                 'DX.cmp_struct_default', 'DX.cmp_enum_default', 'DX.deref_default', 'DX.paramSet_expandSelf']),
+                                 'DX.cmp_struct_default', 'DX.cmp_enum_default', 'DX.deref_default', 'DX.paramSet_expandSelf',
+                                 'DX.mentions_nil', 'DX.nongeneric_no_default_bounds']),
                   (CMP + 'C04', ['DX.absent_contrib', 'DX.default_fields_exact', 'DX.clone_struct_default_where',
                                  'DX.clone_struct_where', 'DX.clone_enum_where', 'DX.copy_enum_where', 'DX.copy_struct_where',
                                  'DX.ops_where', 'DX.default_struct_where', 'DX.default_struct_where_value', 'DX.debug_struct_where', 'DX.selBounds_walk', 'DX.cmp_struct_where', 'DX.cmp_enum_where', ]),
